@@ -265,8 +265,154 @@ func (g *Global) verifyFunc(key string) (res *FuncResult) {
 	}()
 	x.prepass()
 	x.run()
+	if con != nil && con.Deterministic {
+		why := g.nondeterminism(fi, map[*FuncInfo]bool{})
+		o := &Obligation{Name: key + "/deterministic", Kind: "deterministic", Where: fi.Key, Human: "the function's call tree has no source of nondeterminism (map iteration, goroutines, select, channel operations, package-level writes, unknown callees)", PC: "true", Goal: "false", Ctx: c, Fn: key}
+		if why == "" {
+			o.Status, o.Backend = "unsat", "syntactic"
+		} else {
+			o.Status, o.Backend, o.Model = "sat", "syntactic", why
+			o.Human += ": " + why
+		}
+		x.obligs = append(x.obligs, o)
+	}
 	res.Obligations = x.obligs
 	return
+}
+
+// deterministic library callees (results depend on the arguments only)
+var detLib = map[string]bool{"sort": true, "strconv": true, "strings": true, "errors": true, "math": true, "bytes": true, "unicode": true, "unicode/utf8": true, "fmt.Sprintf": true, "fmt.Sprint": true, "fmt.Errorf": true}
+
+// nondeterminism walks fi and every repository function it calls; it returns "" when none of them ranges over a map,
+// starts a goroutine, selects, uses a channel, assigns a package-level variable or calls something unknown.
+func (g *Global) nondeterminism(fi *FuncInfo, seen map[*FuncInfo]bool) string {
+	if seen[fi] {
+		return ""
+	}
+	seen[fi] = true
+	info := fi.Pkg.TypesInfo
+	why := ""
+	at := func(n ast.Node) string {
+		p := g.fset.Position(n.Pos())
+		return fmt.Sprintf("%s:%d", shortPath(p.Filename), p.Line)
+	}
+	ast.Inspect(fi.Body, func(n ast.Node) bool {
+		if why != "" {
+			return false
+		}
+		switch nd := n.(type) {
+		case *ast.RangeStmt:
+			if t := info.TypeOf(nd.X); t != nil {
+				switch t.Underlying().(type) {
+				case *types.Map:
+					why = "range over a map at " + at(nd)
+				case *types.Chan:
+					why = "range over a channel at " + at(nd)
+				}
+			}
+		case *ast.GoStmt:
+			why = "go statement at " + at(nd)
+		case *ast.SelectStmt:
+			why = "select at " + at(nd)
+		case *ast.SendStmt:
+			why = "channel send at " + at(nd)
+		case *ast.UnaryExpr:
+			if nd.Op == token.ARROW {
+				why = "channel receive at " + at(nd)
+			}
+		case *ast.AssignStmt:
+			for _, l := range nd.Lhs {
+				if id, ok := l.(*ast.Ident); ok {
+					if v, ok := info.Uses[id].(*types.Var); ok && v.Parent() == fi.Pkg.Types.Scope() {
+						why = "assignment to package-level variable " + id.Name + " at " + at(nd)
+					}
+				}
+			}
+		case *ast.Ident:
+			if v, ok := info.Uses[nd].(*types.Var); ok && v.Pkg() != nil && v.Parent() == v.Pkg().Scope() {
+				// reading a package-level variable: allowed only if it is never assigned in its package (checked for error values elsewhere)
+				if !g.neverAssigned(v) {
+					why = "reads package-level variable " + nd.Name + " that is assigned somewhere, at " + at(nd)
+				}
+			}
+		case *ast.CallExpr:
+			if tv, ok := info.Types[nd.Fun]; ok && tv.IsType() {
+				return true // conversion
+			}
+			if id, ok := nd.Fun.(*ast.Ident); ok {
+				if _, isBuiltin := info.Uses[id].(*types.Builtin); isBuiltin {
+					return true
+				}
+			}
+			fn := calleeOf(nd, info)
+			if fn == nil {
+				// a call through a function value: the closure tables of this repository are built by deterministic builders;
+				// anything else is unknown
+				if _, ok := nd.Fun.(*ast.IndexExpr); ok {
+					return true
+				}
+				why = "call through a function value at " + at(nd)
+				return false
+			}
+			if callee := g.funcByObj[fn]; callee != nil {
+				if w := g.nondeterminism(callee, seen); w != "" {
+					why = callee.Key + ": " + w
+				}
+				return true
+			}
+			pkg := ""
+			if fn.Pkg() != nil {
+				pkg = fn.Pkg().Path()
+			}
+			if detLib[pkg] || detLib[pkg+"."+fn.Name()] {
+				return true
+			}
+			if sig, ok := fn.Type().(*types.Signature); ok && sig.Recv() != nil {
+				// methods of library value types used here (biogo sam accessors, strings.Builder …) read their receiver only
+				if strings.HasPrefix(pkg, "github.com/biogo/hts/sam") || pkg == "strings" || pkg == "bytes" {
+					return true
+				}
+			}
+			why = "call to " + fn.FullName() + " (not known to be deterministic) at " + at(nd)
+		}
+		return true
+	})
+	return why
+}
+
+// neverAssigned: the package-level variable is initialised at its declaration and never assigned in its package's functions.
+func (g *Global) neverAssigned(v *types.Var) bool {
+	for _, fi := range g.funcs {
+		if fi.Pkg.Types != v.Pkg() {
+			continue
+		}
+		bad := false
+		ast.Inspect(fi.Body, func(n ast.Node) bool {
+			switch nd := n.(type) {
+			case *ast.AssignStmt:
+				for _, l := range nd.Lhs {
+					if id, ok := l.(*ast.Ident); ok && fi.Pkg.TypesInfo.Uses[id] == v {
+						bad = true
+					}
+				}
+			case *ast.IncDecStmt:
+				if id, ok := nd.X.(*ast.Ident); ok && fi.Pkg.TypesInfo.Uses[id] == v {
+					bad = true
+				}
+			case *ast.UnaryExpr:
+				if nd.Op == token.AND {
+					if id, ok := nd.X.(*ast.Ident); ok && fi.Pkg.TypesInfo.Uses[id] == v {
+						bad = true
+					}
+				}
+			}
+			return !bad
+		})
+		if bad {
+			return false
+		}
+	}
+	return true
 }
 
 // prepass assigns source-order ordinals to constructs and collects anchors and local objects.
@@ -277,9 +423,14 @@ func (x *Exec) prepass() {
 	loopN := 0
 	var stmtStack []ast.Stmt
 	anchorCount := map[string]int{}
+	var anchorNode ast.Node
+	x.anchorCalls = map[string]*ast.CallExpr{}
 	addAnchor := func(kind string) {
 		anchorCount[kind]++
 		a := fmt.Sprintf("%s#%d", kind, anchorCount[kind])
+		if ce, ok := anchorNode.(*ast.CallExpr); ok {
+			x.anchorCalls[a] = ce
+		}
 		for i := len(stmtStack) - 1; i >= 0; i-- {
 			switch stmtStack[i].(type) {
 			case *ast.AssignStmt, *ast.ExprStmt, *ast.ReturnStmt, *ast.SendStmt, *ast.IncDecStmt, *ast.DeclStmt:
@@ -376,11 +527,13 @@ func (x *Exec) prepass() {
 					if i := strings.LastIndex(name, "."); i >= 0 {
 						name = name[i+1:]
 					}
+					anchorNode = ce
 					if name == "append" {
 						addAnchor("append")
 					} else {
 						addAnchor("call:" + name)
 					}
+					anchorNode = nil
 				}
 			}
 			return true
@@ -689,6 +842,7 @@ func (x *Exec) execRangeChan(n *ast.RangeStmt, ch Val, keyObj types.Object, st *
 	if len(spec.Invariants) > 0 {
 		x.smoke(fmt.Sprintf("loop%d.body", ord), body, pos)
 	}
+	x.noteIterStart(ord, body)
 	x.execGhost(spec.DoStart, body, x.contractEnv(pos))
 	f := x.execBlock(n.Body.List, body, env)
 	end := x.merge(f.normal, f.cont)
@@ -760,6 +914,7 @@ func (x *Exec) execRangeMap(n *ast.RangeStmt, m Val, keyObj, valObj types.Object
 	if len(spec.Invariants) > 0 {
 		x.smoke(fmt.Sprintf("loop%d.body", ord), body, pos)
 	}
+	x.noteIterStart(ord, body)
 	x.execGhost(spec.DoStart, body, x.contractEnv(pos))
 	f := x.execBlock(n.Body.List, body, env)
 	end := x.merge(f.normal, f.cont)
